@@ -5,7 +5,7 @@ import asyncio
 import typing as t
 import uuid
 
-from .. import taps  # noqa: F401
+from .. import taps
 from .. import blobref, refdc, sdref
 from ..core import Ctx, MachineryError
 from ..tlc import require_actions, require_ok, run_tlc
@@ -160,7 +160,7 @@ class ChunkNet:
         return ChunkSocket(self._conn(address[1]), self.plan)
 
     async def open_connection(self, host: str, port: int = 0, **k: t.Any):
-        reader = asyncio.StreamReader()
+        reader = taps.CountingReader()
         return reader, ChunkWriter(self._conn(port), reader, self.plan)
 
     def __enter__(self) -> "ChunkNet":
@@ -229,7 +229,7 @@ class LowLevel:
             return self.steps_sync(SyncRpcClient(ChunkSocket(conn, plan)))
 
         async def go() -> t.Any:
-            reader = asyncio.StreamReader()
+            reader = taps.CountingReader()
             client = AsyncRpcClient(reader, ChunkWriter(conn, reader, plan))
             return await asyncio.wait_for(self.steps_async(client), 2.0)
 
@@ -270,9 +270,10 @@ _LOOP: asyncio.AbstractEventLoop = None  # type: ignore
 
 def _outcome(fn: t.Callable[[], t.Any]) -> tuple[str, str]:
     try:
-        v = fn()
+        with taps.time_limit(20):
+            v = fn()
         return "value", repr(v)
-    except Spin:
+    except (Spin, taps.Hang):
         return "spin", ""
     except asyncio.TimeoutError:
         return "hang", ""
